@@ -964,7 +964,7 @@ func pathByName(name string) pathT {
 	return paths[0]
 }
 
-var enumSeeds = []string{"00000000000000000000000000000000", "000102030405060708090a0b0c0d0e0f"}
+var enumSeeds = []string{"000102030405060708090a0b0c0d0e0f"}
 
 func enumPlan() Plan {
 	acts := []Act{{Kind: "gvm"}, {Kind: "groll", N: 4}, {Kind: "twin"}, {Kind: "gfam", N: 3}, {Kind: "xrand", N: 2}, {Kind: "mrand", N: 1}, {Kind: "gvm", Src: "d100"}, {Kind: "svm", Seed: "0f0e0d0c0b0a09080706050403020100", Src: "3d6"}}
@@ -1018,13 +1018,13 @@ func TestProp(t *testing.T) {
 	run := rt.Begin(t, "C06")
 	defer run.Finish()
 
-	run.Enum("paths", "every randomness operator (XdY with each modifier, chains, dice operands, default-sided dice, fate, CoC b/p, WoD, Double Cross, rand, shuffle, randSize) x every path into the evaluator (top level, operands, containers, function bodies first and cached call, nested functions, computed values, function in computed, template holes, loops, st command, Parse+RunAfterParsed, RunExpr, DefaultDiceSideExpr) x seeds x modes, followed by a continuation step; oracles replay/noleak/resume plus: in random mode the step must move the context's generator; non-trivial = random mode, >= 2 draws, interference executed; distinct by (operator, path, seed, mode)",
+	run.Enum("paths", "every randomness operator (XdY with each modifier, chains, dice operands, default-sided dice, fate, CoC b/p, WoD, Double Cross, rand, shuffle, randSize) x every path into the evaluator (top level, operands, containers, function bodies first and cached call, nested functions, computed values, function in computed, template holes, loops, st command values and modifications, Parse+RunAfterParsed once and twice, RunExpr, DefaultDiceSideExpr, a computed value supplied by GlobalValueLoadFunc, a host native function that calls RunExpr) x seeds x modes, followed by a continuation step; oracles replay/noleak/resume plus: in random mode the step must move the context's generator; non-trivial = random mode, >= 2 draws, interference executed; distinct by (operator, path, seed, mode)",
 		func(s *rt.Section) {
 			modes := []string{""}
 			seeds := enumSeeds
 			if run.Env.Thorough() {
 				modes = []string{"", "min", "max"}
-				seeds = append(append([]string(nil), seeds...), "ffffffffffffffffffffffffffffffff")
+				seeds = append(append([]string(nil), seeds...), "00000000000000000000000000000000", "ffffffffffffffffffffffffffffffff")
 				for i := 0; i < 7; i++ {
 					x := rt.Mix(run.Env.Seed + uint64(i)*7919)
 					y := rt.Mix(x)
@@ -1035,7 +1035,10 @@ func TestProp(t *testing.T) {
 				seeds = append(append([]string(nil), seeds...), fmt.Sprintf("%016x%016x", x, rt.Mix(x)))
 			}
 			s.Exhaustive = true
-			s.Bounds = fmt.Sprintf("%d operators x %d paths x %d seeds in random mode (+ 2 seeds in each of %d fixed-roll modes), one fixed interference plan (9 injection points per run)", len(operators), len(paths), len(seeds), len(modes)-1)
+			s.Bounds = fmt.Sprintf("%d operators x %d paths x %d seeds in random mode, one fixed interference plan (9 injection points per run)", len(operators), len(paths), len(seeds))
+			if len(modes) > 1 {
+				s.Bounds += fmt.Sprintf("; the same table under min mode and max mode for 2 seeds")
+			}
 			idx := 0
 			for _, op := range operators {
 				for _, pa := range paths {
@@ -1083,8 +1086,8 @@ func TestProp(t *testing.T) {
 			}
 		})
 
-	run.Check("history", 8000, 100000,
-		"a history of 1..4 programs on one seeded context (generated programs dense in dice of every enabled family, random array methods, default-sided dice, dice in function/computed/template/loop bodies; or an operator x path table entry; run through Run, Parse+RunAfterParsed or RunExpr) x 16 seed bytes x configuration (families, mode, IgnoreDiv0, DefaultDiceSideExpr) x interference plans (unseeded VMs, other seeded VMs, VMs with the subject's own seed, Roll*/x-exp-rand/math-rand global draws, observers; before the context exists, between steps, and inside a run at chosen instruction/die-roll ticks) x resume cuts; oracles replay/noleak/resume; non-trivial = random mode, >= 2 draws from the context generator in the reference run and >= 1 interference act executed; distinct by (programs, seed)",
+	run.Check("history", 7000, 100000,
+		"a history of 1..4 programs on one seeded context (generated programs dense in dice of every enabled family, random array methods, default-sided dice, dice in function/computed/template/loop bodies; or an operator x path table entry; run through Run, Parse+RunAfterParsed once or twice, or RunExpr with ctx.Error/NumOpCount cleared) x 16 seed bytes x configuration (families, mode, IgnoreDiv0, DefaultDiceSideExpr) x interference plans (unseeded VMs, other seeded VMs, VMs with the subject's own seed, Roll*/x-exp-rand/math-rand global draws, observers; before the context exists, on the very context object before it is seeded and re-initialised, between steps, and inside a run at chosen instruction/die-roll ticks) x resume cuts; oracles replay/noleak/resume; non-trivial = random mode, >= 2 draws from the context generator in the reference run and >= 1 interference act executed; distinct by (programs, seed)",
 		func(t *rapid.T, s *rt.Section) {
 			c := drawCase(t, s)
 			s.Eval()
